@@ -119,6 +119,13 @@ class RealSpline:
             else:
                 lam = {0: 1.0, 1: 1e-2, 2: 1e3, 3: 1.0}[self.variant]
                 kw["unnormalized_heights"] = rows([softplus_inv(lam * float(h) - 1e-3) if lam * float(h) < 30 else lam * float(h) - 1e-3 for h in p["hq"]])
+        elif fam == "cubic" and self.variant == 3:
+            # nearly flat: every unnormalised parameter is noise of size 1e-6 around the flat spline
+            tiny = lambda n_, o: [1e-6 * ((k + o) % 3 - 1) * (1 + k) for k in range(n_)]
+            kw["unnormalized_widths"] = rows(tiny(self.K, 0))
+            kw["unnormalized_heights"] = rows(tiny(self.K, 1))
+            kw["unnorm_derivatives_left"] = rows([2e-6])
+            kw["unnorm_derivatives_right"] = rows([-3e-6])
         elif fam == "cubic":
             kw["unnormalized_heights"] = rows([math.log(v) - shift for v in p["hs"]])
             kw["unnorm_derivatives_left"] = rows([math.log(float(p["dl"]) / (1 - float(p["dl"])))])
